@@ -606,9 +606,9 @@ pub fn c15(c: &Corpus, tier: &str) -> Report {
     for (i, s) in c.literals.iter().enumerate() {
         if tier != "thorough" && s.len() > 400 && i % 3 != 0 { continue; }
         for dn in DIALECT_NAMES {
-            let d = dialect(dn);
-            let w = Wrapped(dialect(dn));
-            let w2 = WrappedOwnId(dialect(dn));
+            let d = plain_dialect(dn);
+            let w = Wrapped(plain_dialect(dn));
+            let w2 = WrappedOwnId(plain_dialect(dn));
             for o in [Opts::DEFAULT, Opts { unescape: false, trailing: Some(true), limit: None }] {
                 r.evaluations += 1;
                 let a = parse(d.as_ref(), o, s);
